@@ -271,7 +271,7 @@ def r_dstr(P, chk):
         for p in f.params:
             if p[0] not in ("len", "bytes") or "size_t" not in p[1] and "unsigned" not in p[1]:
                 continue
-            tests = [x for x in f.walk() if x["k"] == "BinaryOperator" and x["op"] == "=="
+            tests = [x for x in f.walk() if x["k"] == "BinaryOperator" and x["op"] in ("==", "!=")
                      and key(x["c"][0]) == p[0] and const_value(x["c"][1]) in (-1, 2 ** 64 - 1)]
             pidx = [i for i, q in enumerate(f.params) if q[0] == p[0]][0]
             users = minus1_callers.get((f.name, pidx), [])
@@ -286,9 +286,48 @@ def r_dstr(P, chk):
             arith = [x for x in f.walk() if x["k"] == "BinaryOperator" and x["op"] in ("+", "-")
                      and any(y["k"] == "DeclRefExpr" and y["n"] == p[0] for y in walk(x))
                      and not x.get("t", "").endswith("*")]
+            from .prog import edpe_blocks as _edpe
+
+            def _is_m1(t_, pn=p[0]):
+                t2 = strip(t_)
+                if t2 is not None and t2["k"] == "BinaryOperator" and t2["op"] in ("==", "!=") and key(t2["c"][0]) == pn and \
+                        const_value(t2["c"][1]) in (-1, 2 ** 64 - 1):
+                    return t2["op"] == "=="
+                return None
+            m1_reach = _edpe(f, "?none", 0, extra_decide=_is_m1)
+            fpos = f.cfg.positions()
+
+            def _dead_for_m1(node):
+                z = node
+                while z is not None and z.get("i") not in fpos:
+                    z = f.parent(z)
+                return z is not None and fpos[z["i"]][0] not in m1_reach
+
+            def _in_cond_with_test(node):
+                for a in f.ancestors(node):
+                    if a["k"] == "BinaryOperator" and a["op"] == "&&" and any(t in list(walk(a)) for t in tests):
+                        return True
+                return False
             for x in arith:
                 ok = any(f.cfg.dominates(t["i"], x["i"]) for t in tests) or \
                     any(a["k"] in ("IfStmt",) and key(a["c"][0]).find("%s==" % p[0]) >= 0 for a in f.ancestors(x))
+                if not ok and _dead_for_m1(x):
+                    ok = True      # cannot run when the parameter is -1 (path condition)
+                if not ok:
+                    # the sum is only kept in a local whose every use is dead for -1 or conjoined with the -1 test
+                    par0 = f.parent(x)
+                    while par0 is not None and par0["k"] in ("ParenExpr", "ImplicitCastExpr", "CStyleCastExpr"):
+                        par0 = f.parent(par0)
+                    rname = None
+                    if par0 is not None and par0["k"] == "VarDecl":
+                        rname = par0.get("n")
+                    elif par0 is not None and par0["k"] == "BinaryOperator" and par0["op"] == "=" and strip(par0["c"][0])["k"] == "DeclRefExpr":
+                        rname = key(par0["c"][0])
+                    if rname:
+                        uses = [y for y in f.walk() if y["k"] == "DeclRefExpr" and y.get("n") == rname and
+                                not (f.parent(y) is par0 and par0["k"] == "BinaryOperator" and strip(par0["c"][0]) is y)]
+                        if uses and all(_dead_for_m1(y) or _in_cond_with_test(y) for y in uses):
+                            ok = True
                 if not ok:
                     # `pos + len >= length -> len = -1` shape: the sum is itself the test that produces the -1 form
                     par = f.parent(x)
@@ -412,8 +451,12 @@ def r_fmtbound(P, chk):
                 elif x["k"] == "VarDecl" and x.get("n") == dst and x.get("c") and x["c"][0] is not None:
                     rhs = x["c"][0]
                 r = strip(rhs) if rhs is not None else None
-                if r is not None and r["k"] == "CallExpr" and r.get("callee") in ("malloc", "calloc") and x.get("i") in pos:
-                    allocs.append((x, r))
+                if r is not None and r["k"] == "CallExpr" and r.get("callee") in ("malloc", "calloc"):
+                    st_ = x
+                    while st_ is not None and st_.get("i") not in pos:
+                        st_ = f.parent(st_)
+                    if st_ is not None:
+                        allocs.append((st_, r))
             allocs = [(x, r) for x, r in allocs if f.cfg.dominates(x["i"], c["i"])]
             if len(allocs) != 1:
                 continue          # a caller-supplied or stack buffer: R-ARRAY / R-HEAPIDX territory
